@@ -40,7 +40,8 @@ WITNESS_CAP = {'quick': 20, 'thorough': 40}
 def configs(tier):
     quick = tier == 'quick'
     out = []
-    shapes = [(1, [2]), (1, [1]), (2, [1, 2]), (2, [2, 1]), (2, [2, 2]), (3, [1, 2, 1]), (3, [1, 1, 1])]
+    shapes = [(1, [2]), (1, [1]), (2, [1, 2]), (2, [2, 1]), (2, [2, 2]), (3, [1, 2, 1]), (3, [1, 1, 1]),
+              (3, [2, 1, 1])]      # last: first probe curated (highest cluster id > highest template id)
     if not quick:
         shapes += [(3, [2, 1, 2]), (2, [3, 1]), (2, [2, 3]), (4, [1, 1, 1, 1]), (3, [2, 2, 1])]
     dts = [('int32', 'uint64'), ('int64', 'int64'), ('uint32', 'uint64'), ('uint64', 'int64')]
